@@ -464,15 +464,14 @@ theorem store_steps (code : Code) (x : Nat) (p : Pos) (off : Nat) (τ : Vm)
   · simp only [CoreVm.step, h0]
   · simp only [CoreVm.step, advance, h1]
 
-/-- the condition evaluates to a number whenever it evaluates (what the checker guarantees: conditions are
-numeric; see `numericCond_of_rel` for the usual case of a comparison) -/
-def NumericCond (c : Ast.Expr) : Prop :=
-  ∀ env v, eval env c = .ok v → (truthy v).isSome
+/-- in environment `env` the condition evaluates to a number whenever it evaluates -/
+def NumericAt (env : List Val) (c : Ast.Expr) : Prop :=
+  ∀ v, eval env c = .ok v → (truthy v).isSome
 
 /-- `<cond>; JumpIfFalse target` -/
 theorem cond_correct (code : Code) (c : Ast.Expr) (target : Nat) (p : Pos) (off : Nat) (σ : Vm)
     (hc : CodeAt code off (compileExpr c ++ [(CInstr.jumpIfFalse target, p)])) (hpc : σ.pc = off)
-    (hs : SlotsBelow σ.env.length c) (hn : NumericCond c) :
+    (hs : SlotsBelow σ.env.length c) (hn : NumericAt σ.env c) :
     match evalCond σ.env c with
     | .ok true => ∃ v b, Steps code σ (afterExpr σ (off + (compileExpr c).length + 1) v b)
     | .ok false => ∃ v b, Steps code σ (afterExpr σ target v b)
@@ -488,7 +487,7 @@ theorem cond_correct (code : Code) (c : Ast.Expr) (target : Nat) (p : Pos) (off 
   | ok v =>
     simp only [hev] at he
     obtain ⟨b, st⟩ := he
-    have hsome := hn σ.env v hev
+    have hsome := hn v hev
     cases ht : truthy v with
     | none => simp [ht] at hsome
     | some tv =>
@@ -630,6 +629,24 @@ theorem items_correct (code : Code) (p : Pos) :
 
 /-! #### the statement theorem -/
 
+/-- every variable holds a value of its declared type -/
+def Typed (sl : List Ty) (env : List Val) : Prop :=
+  env.length = sl.length ∧ ∀ (x : Nat) (t : Ty), sl[x]? = some t → ∃ v : Val, env[x]? = some v ∧ v.tag = t
+
+theorem Typed.len {sl : List Ty} {env : List Val} (h : Typed sl env) : env.length = sl.length := h.1
+
+theorem Typed.lt {sl : List Ty} {env : List Val} (h : Typed sl env) {x : Nat} {t : Ty} (hx : sl[x]? = some t) :
+    x < env.length := by
+  rw [h.len]
+  obtain ⟨hlt, _⟩ := List.getElem?_eq_some_iff.mp hx
+  exact hlt
+
+/-- the condition evaluates to a number whenever it evaluates, in every environment whose variables hold values of
+their declared types (what the checker guarantees: conditions are not strings; `numericCond_of_ty` gives it from the
+static type, `numericCond_of_rel` for comparisons in any environment) -/
+def NumericCond (sl : List Ty) (c : Ast.Expr) : Prop :=
+  ∀ env, Typed sl env → NumericAt env c
+
 /-- static typing of an expression as the checker establishes it: a variable is used at the type of its slot and an
 operator node carries the result type the checker's table (`cast_binary_op`, extracted into `Gen.NumTables.binType`)
 gives for the types of its operands (`/` is followed by a `Cast` to the node's type, so nothing is asked of it) -/
@@ -664,9 +681,9 @@ def Wf (sl : List Ty) : SStmt → Prop
   | .assign x t e _ => sl[x]? = some t ∧ SlotsBelow sl.length e ∧ ExprWt sl e
   | .print items _ => ItemsSlots sl.length items
   | .ifBlock c thn elifs hasElse els _ =>
-    SlotsBelow sl.length c ∧ NumericCond c ∧ Wf sl thn ∧ WfElifs sl elifs ∧ Wf sl els ∧ (hasElse = false → els = .skip)
-  | .while c body _ => SlotsBelow sl.length c ∧ NumericCond c ∧ Wf sl body
-  | .doLoop c _ _ body _ => SlotsBelow sl.length c ∧ NumericCond c ∧ Wf sl body
+    SlotsBelow sl.length c ∧ NumericCond sl c ∧ Wf sl thn ∧ WfElifs sl elifs ∧ Wf sl els ∧ (hasElse = false → els = .skip)
+  | .while c body _ => SlotsBelow sl.length c ∧ NumericCond sl c ∧ Wf sl body
+  | .doLoop c _ _ body _ => SlotsBelow sl.length c ∧ NumericCond sl c ∧ Wf sl body
   | .end_ _ => True
   | .data _ _ => False
   | .read vars _ => ∀ v ∈ vars, sl[v.1]? = some v.2.1
@@ -676,23 +693,11 @@ def Wf (sl : List Ty) : SStmt → Prop
     sl[x]? = some t ∧ SlotsBelow sl.length lo ∧ ExprWt sl lo ∧ SlotsBelow sl.length hi ∧ (∀ se, step = some se → SlotsBelow sl.length se) ∧ Wf sl body
 def WfElifs (sl : List Ty) : ElseIfs → Prop
   | .nil => True
-  | .cons c body rest => SlotsBelow sl.length c ∧ NumericCond c ∧ Wf sl body ∧ WfElifs sl rest
+  | .cons c body rest => SlotsBelow sl.length c ∧ NumericCond sl c ∧ Wf sl body ∧ WfElifs sl rest
 def WfCases (sl : List Ty) : SCases → Prop
   | .nil => True
   | .cons conds body rest => conds ≠ [] ∧ CondsSlots sl.length conds ∧ Wf sl body ∧ WfCases sl rest
 end
-
-/-- every variable holds a value of its declared type -/
-def Typed (sl : List Ty) (env : List Val) : Prop :=
-  env.length = sl.length ∧ ∀ (x : Nat) (t : Ty), sl[x]? = some t → ∃ v : Val, env[x]? = some v ∧ v.tag = t
-
-theorem Typed.len {sl : List Ty} {env : List Val} (h : Typed sl env) : env.length = sl.length := h.1
-
-theorem Typed.lt {sl : List Ty} {env : List Val} (h : Typed sl env) {x : Nat} {t : Ty} (hx : sl[x]? = some t) :
-    x < env.length := by
-  rw [h.len]
-  obtain ⟨hlt, _⟩ := List.getElem?_eq_some_iff.mp hx
-  exact hlt
 
 /-- the induction hypothesis of the statement theorem at a given amount of fuel -/
 def StmtIH (code : Code) (fuel : Nat) : Prop :=
@@ -957,7 +962,9 @@ theorem case_while (code : Code) (fuel : Nat) (ih : StmtIH code fuel) (htp : Exe
       have := h2 0 (by simp)
       simp only [Nat.sub_self]
       rw [← this]; congr 1; omega
-  have hcond := cond_correct code c _ p (σ.pc + 1) σ1 hcc rfl (by have := hty.len; simp only [σ1, advance, hr.env, this]; exact hsc) hnc
+  have hcond := cond_correct code c _ p (σ.pc + 1) σ1 hcc rfl (by have := hty.len; simp only [σ1, advance, hr.env, this]; exact hsc)
+    (by have : σ1.env = s.env := by simp [σ1, advance, hr.env]
+        rw [this]; exact hnc _ hty)
   have henv1 : σ1.env = s.env := by simp [σ1, advance, hr.env]
   rw [henv1] at hcond
   simp only [desugar, exec, sizeStmt]
@@ -1061,7 +1068,7 @@ theorem case_while (code : Code) (fuel : Nat) (ih : StmtIH code fuel) (htp : Exe
 /-- comparisons, AND, OR and NOT of integers produce numbers: the usual conditions are `NumericCond` -/
 theorem numericCond_of_rel (op : Op) (l r : Ast.Expr) (t : Ty) (p : Pos)
     (hop : op = .less ∨ op = .lessOrEqual ∨ op = .equal ∨ op = .greaterOrEqual ∨ op = .greater ∨ op = .notEqual) :
-    NumericCond (.bin op l r t p) := by
+    ∀ env, NumericAt env (.bin op l r t p) := by
   intro env v hv
   simp only [eval] at hv
   cases hl : eval env l with
